@@ -140,10 +140,20 @@ protected:
     DOMNode* getNextSibling (DOMNode* node);
 
     // Internal function.
+    //  Same as above, but the search for a sibling that continues in the
+    //  siblings of skipped parents does not leave the subtree of root.
+    DOMNode* getNextSibling (DOMNode* node, DOMNode* root);
+
+    // Internal function.
     //  Return the previous sibling Node, from the input node
     //  after applying filter, whatToshow.
     //  The current node is not consulted or set.
     DOMNode* getPreviousSibling (DOMNode* node);
+
+    // Internal function.
+    //  Same as above, but the search for a sibling that continues in the
+    //  siblings of skipped parents does not leave the subtree of root.
+    DOMNode* getPreviousSibling (DOMNode* node, DOMNode* root);
 
     // Internal function.
     //  Return the first child Node, from the input node
